@@ -20,14 +20,14 @@ def run(m):
         if subprocess.run("go build ./...", shell=True, cwd=dst, env=ENV, capture_output=True).returncode != 0:
             return dict(m, status="nobuild")
         try:
-            t = subprocess.run("go test -vet=off -count=1 -timeout 240s ./...", shell=True, cwd=dst, env=ENV, capture_output=True, text=True, timeout=400)
+            t = subprocess.run("go test -vet=off -count=1 -timeout 240s ./...", shell=True, cwd=dst, env=ENV, capture_output=True, text=True, errors="replace", timeout=400)
         except subprocess.TimeoutExpired:
             return dict(m, status="killed", how="timeout")
         if t.returncode != 0:
             return dict(m, status="killed")
         alarms = {}
         for prop in PROPS:
-            c = subprocess.run([os.path.join(V, "bin", "uxcheck"), "-prop", prop, "-tier", "quick", "-repo", dst, "-verif", V, "-no-evidence"], env=ENV, capture_output=True, text=True)
+            c = subprocess.run([os.environ.get("UXBIN", os.path.join(V, "bin", "uxcheck")), "-prop", prop, "-tier", "quick", "-repo", dst, "-verif", V, "-no-evidence"], env=ENV, capture_output=True, text=True)
             if c.returncode != 0:
                 lines = [l.strip() for l in (c.stdout + c.stderr).splitlines() if l.startswith("  violated") or l.startswith("UNDECIDED")]
                 alarms[prop] = {"exit": c.returncode, "first": (lines[0][:240] if lines else "")}
@@ -35,9 +35,36 @@ def run(m):
     finally:
         shutil.rmtree(tmp, ignore_errors=True)
 
+def recheck(m):
+    """Re-run the checks (not the suite) on a recorded survivor that no check reported."""
+    tmp = tempfile.mkdtemp(prefix="uxsweep-")
+    try:
+        dst = os.path.join(tmp, "repo"); shutil.copytree("/repo", dst, ignore=shutil.ignore_patterns(".git"))
+        p = os.path.join(dst, m["file"]); src = open(p, "rb").read()
+        open(p, "wb").write(src[:m["start"]] + m["repl"].encode() + src[m["end"]:])
+        alarms = {}
+        for prop in PROPS:
+            c = subprocess.run([os.environ.get("UXBIN", os.path.join(V, "bin", "uxcheck")), "-prop", prop, "-tier", "quick", "-repo", dst, "-verif", V, "-no-evidence"], env=ENV, capture_output=True, text=True, errors="replace")
+            if c.returncode != 0:
+                lines = [l.strip() for l in (c.stdout + c.stderr).splitlines() if l.startswith("  violated") or l.startswith("UNDECIDED")]
+                alarms[prop] = {"exit": c.returncode, "first": (lines[0][:240] if lines else "")}
+        return dict(m, alarms=alarms, rechecked=True)
+    finally:
+        shutil.rmtree(tmp, ignore_errors=True)
+
 def main():
-    ap = argparse.ArgumentParser(); ap.add_argument("--jobs", type=int, default=4); ap.add_argument("--only"); ap.add_argument("--limit", type=int); ap.add_argument("--out", required=True)
+    ap = argparse.ArgumentParser(); ap.add_argument("--jobs", type=int, default=4); ap.add_argument("--only"); ap.add_argument("--limit", type=int); ap.add_argument("--out", required=True); ap.add_argument("--recheck")
     a = ap.parse_args()
+    if a.recheck:
+        # --recheck OLD.jsonl: survivors of OLD that no check reported are checked again with the current binary
+        old = [json.loads(l) for l in open(a.recheck)]
+        todo = [r for r in old if r["status"] == "survivor" and not r["alarms"]]
+        print("survivors to recheck:", len(todo), flush=True)
+        with open(a.out, "w") as f, cf.ThreadPoolExecutor(max_workers=a.jobs) as ex:
+            for r in ex.map(recheck, todo):
+                f.write(json.dumps(r) + "\n"); f.flush()
+                print("recheck %s:%d %s [%s] alarms=%s" % (r["file"], r["line"], r["kind"], r["func"], ",".join(sorted(r["alarms"])) or "NONE"), flush=True)
+        return 0
     out = subprocess.run([os.path.join(V, "bin", "mutgen"), "/repo"], capture_output=True, text=True).stdout
     muts = [json.loads(l) for l in out.splitlines()]
     if a.only: muts = [m for m in muts if a.only in m["file"]]
